@@ -163,9 +163,16 @@ def run(ctx, spec, floor, config="all", label="", own_only=False, kernels=False)
         rows = [r for r in ctx.table("total").get(fn, []) if r.get("kind") == kind and r.get("what") == what]
         reason = rows[0].get("reason", "") if rows else ""
         rep.table("row:%s|%s|%s" % (short(fn), kind, what), "", reason)
+    n_lin = sum(1 for lg in T.discharge_log if str(lg[4]).startswith("D-lin"))
     rep.analysed = {"build_config": config, "entries": len(entries), "configurations": len(cfgs),
-                    "stats": dict(T.stats), "label": label}
+                    "stats": dict(T.stats), "label": label, "kernel_implicit_sites_in_scope": bool(kernels),
+                    "sites_discharged_by_linear_domain": n_lin,
+                    "linear_preconditions_assumed_in_callee_and_proved_at_call_sites": sorted(
+                        k.replace("crate::", "") for k in T.linear_pre_used)}
     rep.floor("entries" + ("-" + label if label else ""), len(entries), floor)
+    if kernels and label in ("C14", "C11"):
+        # the kernel claims rest on D-lin: a run in which it discharged nothing did not analyse the kernels
+        rep.floor("sites-discharged-by-D-lin-" + label, n_lin, 10 if label == "C14" else 5)
     return rep
 
 
